@@ -14,7 +14,8 @@ BACKENDS = ["js", "dart", "kotlin", "nanobind"]
 EXCLUDED_PARAMS = {"Option<&'x [u8]>", "Option<SB<'x>>", "&'static Op", "&'static str"}
 # returned slices/strings are copied into host values by some backends (Kotlin arrays/Strings, nanobind std::string): the
 # returned value then borrows nothing, so no edge is required; these return forms are judged in the in-process half only
-RETS = [f for f in S.RET_FORMS if f.name not in ("&'r [u8]", "&'r str")]
+# JS panics on any Result whose error type is a primitive (converter.rs `e.id().unwrap()`): reported by C15, kept out of this module
+RETS = [f for f in S.RET_FORMS if f.name not in ("&'r [u8]", "&'r str", "Result<u8, S2b<'r,'s>>", "Result<S2b<'r,'s>, u8>")]
 
 
 def _sig_sets(tier):
@@ -167,6 +168,14 @@ def _judge_method(s, body, backend):
             plan = {}
             plan.setdefault(r, []).append((okb, [r]))
             plan.setdefault(e, []).append((errb, ["self", e]))
+        elif s.ret.name == "Result<u8, S2b<'r,'s>>":
+            plan = {}
+            for l in s.ret_l:
+                plan.setdefault(l, []).append((errb, [l]))
+        elif s.ret.name == "Result<S2b<'r,'s>, u8>":
+            plan = {}
+            for l in s.ret_l:
+                plan.setdefault(l, []).append((okb, [l]))
         else:
             plan = {s.ret_l[0]: [(okb, ["self", s.ret_l[0]])]}
     for r, want in exp.items():
